@@ -31,6 +31,7 @@ import (
 	"os"
 	"sort"
 	"strings"
+	"sync/atomic"
 	"testing"
 	"time"
 
@@ -42,8 +43,9 @@ import (
 )
 
 type vfoCmd struct {
-	ID  int
-	Key int
+	ID   int
+	Key  int
+	Key2 int // > 0: `mset key #id key2 #id` (index+1 into Keys), a command the cluster router refuses when the keys live on two nodes
 }
 
 type vfoScn struct {
@@ -64,7 +66,18 @@ type vfoScn struct {
 	StallNode    int
 	Resume       bool // plain modes: EnableResumeFromBreakPoint, the checkpoint offset is stored on the target
 	CpRetry      bool // resumable run whose FIRST checkpoint flush fails on the checkpoint key's redirect and is retried
+	Restart      bool // when the run has ended with an error: a second run (new output, new client) from the position stored on the target
+	Extra        []vfdoubles.Sched // further schedule entries (faults restricted to a node)
+	CpMoved      bool              // the checkpoint key's slot has moved before the run (stale client map): the position write is a followed redirect
+	SelfEnd      bool              // the input stays open until the run returns by itself
+	CrossPut     bool // with PutErr: the refused command is `smove key key2 #id` over two nodes, refused with ErrCrossSlots (plain mode retries it)
+	PutErr       bool // one command of the stream is refused by the router (MSET over two nodes): Exec/Dispatch return that error before sending
 }
+
+// pipelined: does the sender run pipelined? Transactional replay to a cluster with resuming from the
+// target switches pipeline mode off (NewRedisOutput): every such batch carries the position, which only
+// the blocking path sends after the data commands went through.
+func (scn *vfoScn) pipelined() bool { return scn.Pipeline && !(scn.Txn && (scn.Resume || scn.CpRetry)) }
 
 func vfoEncode(args ...string) []byte {
 	var sb strings.Builder
@@ -83,6 +96,107 @@ type vfoResult struct {
 	Arrivals map[int]int
 	Stalled  bool
 	Ends     map[int]int64
+	// Restart scenarios: the values above are those of the WHOLE history (both runs); run 1 alone:
+	ZExec     int // index into Execs where run 2 starts (-1: no second run)
+	Final1    string
+	Err1      error
+	Arrivals1 map[int]int
+}
+
+// vfoObsClient wraps the real cluster client: every batcher logs, into the cluster double's global
+// trace, when its Exec / Dispatch starts (B:<n>:<data ids>:<position or ->:<b|p>) and how Exec /
+// Dispatch / Receive ended (E:<n>:<ok|rd|cs|ot>). Nothing else changes: Put, Exec, Dispatch and
+// Receive are the real ones.
+type vfoObsClient struct {
+	client.Redis
+	d   *vfdoubles.Cluster
+	seq *int32
+}
+
+func (c *vfoObsClient) NewBatcher(pipeline bool) common.CmdBatcher {
+	return &vfoObsBatcher{CmdBatcher: c.Redis.NewBatcher(pipeline), d: c.d, n: int(atomic.AddInt32(c.seq, 1)), off: "-"}
+}
+
+type vfoObsBatcher struct {
+	common.CmdBatcher
+	d   *vfdoubles.Cluster
+	n   int
+	ids []string
+	off string
+}
+
+func vfoArgString(a interface{}) string {
+	switch t := a.(type) {
+	case []byte:
+		return string(t)
+	case string:
+		return t
+	}
+	return fmt.Sprint(a)
+}
+
+func (b *vfoObsBatcher) Put(cmd string, args ...interface{}) error {
+	switch strings.ToLower(cmd) {
+	case "set", "mset":
+		if len(args) >= 2 {
+			if v := vfoArgString(args[1]); strings.HasPrefix(v, "#") {
+				b.ids = append(b.ids, v[1:])
+			}
+		}
+	case "smove":
+		if len(args) >= 3 {
+			if v := vfoArgString(args[2]); strings.HasPrefix(v, "#") {
+				b.ids = append(b.ids, v[1:])
+			}
+		}
+	case "hset":
+		if len(args) >= 3 && strings.HasSuffix(vfoArgString(args[1]), "_offset") {
+			b.off = vfoArgString(args[2])
+		}
+	}
+	return b.CmdBatcher.Put(cmd, args...)
+}
+
+func vfoErrTok(err error) string {
+	switch {
+	case err == nil:
+		return "ok"
+	case errors.Is(err, common.ErrMove) || errors.Is(err, common.ErrAsk):
+		return "rd"
+	case errors.Is(err, common.ErrCrossSlots):
+		return "cs"
+	}
+	return "ot"
+}
+
+func (b *vfoObsBatcher) begin(kind string) {
+	ids := "."
+	if len(b.ids) > 0 {
+		ids = strings.Join(b.ids, ",")
+	}
+	b.d.Log(fmt.Sprintf("B:%d:%s:%s:%s", b.n, ids, b.off, kind))
+}
+
+func (b *vfoObsBatcher) Exec() ([]interface{}, error) {
+	b.begin("b")
+	r, err := b.CmdBatcher.Exec()
+	b.d.Log(fmt.Sprintf("E:%d:%s", b.n, vfoErrTok(err)))
+	return r, err
+}
+
+func (b *vfoObsBatcher) Dispatch() error {
+	b.begin("p")
+	err := b.CmdBatcher.Dispatch()
+	if err != nil {
+		b.d.Log(fmt.Sprintf("E:%d:%s", b.n, vfoErrTok(err)))
+	}
+	return err
+}
+
+func (b *vfoObsBatcher) Receive() ([]interface{}, error) {
+	r, err := b.CmdBatcher.Receive()
+	b.d.Log(fmt.Sprintf("E:%d:%s", b.n, vfoErrTok(err)))
+	return r, err
 }
 
 func vfoRun(scn *vfoScn) (*vfoResult, error) {
@@ -109,6 +223,10 @@ func vfoRun(scn *vfoScn) (*vfoResult, error) {
 		sc = append(sc, vfdoubles.Sched{At: 0, Ev: vfdoubles.MigEv{Kind: "v", Slot: cpSlot, Dst: cpNew}},
 			vfdoubles.Sched{At: 0, Ev: vfdoubles.MigEv{Kind: "x", Dst: cpNew}})
 	}
+	if scn.CpMoved {
+		sc = append(sc, vfdoubles.Sched{At: 0, Ev: vfdoubles.MigEv{Kind: "v", Slot: cpSlot, Dst: cpNew}})
+	}
+	sc = append(sc, scn.Extra...)
 	if scn.Fault != "" {
 		fn := 0
 		if scn.CpBatch {
@@ -136,7 +254,7 @@ func vfoRun(scn *vfoScn) (*vfoResult, error) {
 		// after the receiver saw the failure
 		cfg.UpdateCheckpointTicker = time.Hour
 	}
-	if scn.CpBatch || scn.CpRetry {
+	if scn.CpBatch || scn.CpRetry || scn.CpMoved {
 		// only the checkpoint ticker flushes: the data commands are in the flush that carries the position
 		cfg.BatchTicker = time.Hour
 		cfg.BatchCmdCount = 1000
@@ -155,26 +273,38 @@ func vfoRun(scn *vfoScn) (*vfoResult, error) {
 		}
 		return false
 	}
-	if scn.StallOn && !scn.CpBatch {
-		// sendAof closes the client as soon as the sender loop has returned; a position the sender
-		// dispatched just before (asynchronously, through the node pipeline) would race with that
-		// Close. Keep the client open until such a write has arrived, or 200 ms have passed without
-		// one (the wait only gives a wrong write time to show, it never creates a verdict).
-		rc := ro.cfg.Redis
-		ro.newRedisConn = func(ctx context.Context) (client.Redis, error) {
+	var batchSeq int32
+	observe := func(o *RedisOutput) {
+		rc := o.cfg.Redis
+		o.newRedisConn = func(ctx context.Context) (client.Redis, error) {
 			cl, err := client.NewRedis(rc)
 			if err != nil {
 				return nil, err
 			}
-			return &vfoHoldClose{Redis: cl, until: cpStored}, nil
+			var out client.Redis = &vfoObsClient{Redis: cl, d: d, seq: &batchSeq}
+			if scn.StallOn && !scn.CpBatch {
+				// sendAof closes the client as soon as the sender loop has returned; a position the sender
+				// dispatched just before (asynchronously, through the node pipeline) would race with that
+				// Close. Keep the client open until such a write has arrived, or 200 ms have passed without
+				// one (the wait only gives a wrong write time to show, it never creates a verdict).
+				out = &vfoHoldClose{Redis: out, until: cpStored}
+			}
+			return out, nil
 		}
 	}
+	observe(ro)
 
 	var stream []byte
 	ids := make([]int, 0, len(scn.Cmds))
 	ends := map[int]int64{} // command id -> stream offset after it
 	for _, c := range scn.Cmds {
-		stream = append(stream, vfoEncode("set", scn.Keys[c.Key], fmt.Sprintf("#%d", c.ID))...)
+		if c.Key2 > 0 && scn.CrossPut {
+			stream = append(stream, vfoEncode("smove", scn.Keys[c.Key], scn.Keys[c.Key2-1], fmt.Sprintf("#%d", c.ID))...)
+		} else if c.Key2 > 0 {
+			stream = append(stream, vfoEncode("mset", scn.Keys[c.Key], fmt.Sprintf("#%d", c.ID), scn.Keys[c.Key2-1], fmt.Sprintf("#%d", c.ID))...)
+		} else {
+			stream = append(stream, vfoEncode("set", scn.Keys[c.Key], fmt.Sprintf("#%d", c.ID))...)
+		}
 		ids = append(ids, c.ID)
 		ends[c.ID] = int64(len(stream))
 	}
@@ -261,7 +391,7 @@ func vfoRun(scn *vfoScn) (*vfoResult, error) {
 	finished := false
 	dl := time.Now().Add(12 * time.Second)
 	for !finished {
-		if d.AllExecuted(ids) {
+		if !scn.SelfEnd && d.AllExecuted(ids) {
 			if !scn.CpRetry {
 				break
 			}
@@ -316,17 +446,97 @@ func vfoRun(scn *vfoScn) (*vfoResult, error) {
 		}
 	}
 	pr.Close()
-	switch {
-	case errors.Is(res.Err, ErrRedisTypologyChanged):
-		res.Final = "typology"
-	case errors.Is(res.Err, ErrBreak):
-		res.Final = "break"
-	case errors.Is(res.Err, common.ErrMove) || errors.Is(res.Err, common.ErrAsk):
-		res.Final = "other" // plain mode: the raw redirect error closes the run
-	case !early:
-		res.Final = "eof"
-	default:
-		res.Final = "other"
+	classify := func(err error, early bool) string {
+		switch {
+		case errors.Is(err, ErrRedisTypologyChanged):
+			return "typology"
+		case errors.Is(err, ErrBreak):
+			return "break"
+		case errors.Is(err, common.ErrMove) || errors.Is(err, common.ErrAsk):
+			return "other" // plain mode: the raw redirect error closes the run
+		case !early:
+			return "eof"
+		}
+		return "other"
+	}
+	res.Final = classify(res.Err, early)
+	res.ZExec = -1
+	if scn.Restart && early && !res.Stalled {
+		// the run reported an error: what the syncer does next is start again from the position stored
+		// on the target (a new output, a new client that reads the slot map afresh)
+		res.Final1, res.Err1, res.Arrivals1 = res.Final, res.Err, d.Arrivals()
+		_, ex1, _ := d.Snapshot()
+		res.ZExec = len(ex1)
+		stored := int64(0)
+		for _, e := range ex1 {
+			if len(e.Keys) == 1 && e.Keys[0] == "vfcp" && strings.HasSuffix(e.Field, "_offset") {
+				fmt.Sscan(e.Value, &stored) // the hash field holds the LAST value written
+			}
+		}
+		d.Log("Z")
+		d.ReleaseParked()
+		d.EnablePark(1)
+		ro2 := NewRedisOutput(cfg)
+		observe(ro2)
+		ctx2, cancel2 := context.WithCancel(context.Background())
+		defer cancel2()
+		pr2, pw2 := io.Pipe()
+		done2 := make(chan error, 1)
+		wrote := make(chan struct{})
+		go func() { done2 <- ro2.sendAof(ctx2, "rid", bufio.NewReaderSize(pr2, 4096), stored, -1) }()
+		go func() { pw2.Write(stream[stored:]); close(wrote) }()
+		var need []int // commands the second run has to send
+		for _, c := range scn.Cmds {
+			if ends[c.ID] > stored {
+				need = append(need, c.ID)
+			}
+		}
+		again := func() bool {
+			_, ex, _ := d.Snapshot()
+			got := map[int]bool{}
+			for _, e := range ex[res.ZExec:] {
+				got[e.ID] = true
+			}
+			for _, id := range need {
+				if !got[id] {
+					return false
+				}
+			}
+			return true
+		}
+		fin2 := false
+		dl2 := time.Now().Add(12 * time.Second)
+		for !fin2 && !again() {
+			select {
+			case res.Err = <-done2:
+				fin2 = true
+			default:
+				if time.Now().After(dl2) {
+					res.Stalled, fin2 = true, true
+					cancel2()
+					res.Err = <-done2
+				} else {
+					time.Sleep(200 * time.Microsecond)
+				}
+			}
+		}
+		early2 := fin2
+		if !fin2 {
+			select {
+			case <-wrote:
+			case <-time.After(5 * time.Second):
+			}
+			pw2.Close()
+			select {
+			case res.Err = <-done2:
+			case <-time.After(20 * time.Second):
+				res.Stalled = true
+				cancel2()
+				res.Err = <-done2
+			}
+		}
+		pr2.Close()
+		res.Final = classify(res.Err, early2)
 	}
 	res.Trace, res.Execs, _ = d.Snapshot()
 	res.Arrivals = d.Arrivals()
@@ -355,7 +565,7 @@ func (h *vfoHoldClose) Close() error {
 
 type vfoViol struct{ what, detail, mechanism string }
 
-func vfoMonitor(scn *vfoScn, res *vfoResult) []vfoViol {
+func vfoMonitor1(scn *vfoScn, res *vfoResult) []vfoViol {
 	var out []vfoViol
 	keyOf := map[int]int{}
 	perKey := map[int][]int{} // source ids per key
@@ -516,6 +726,491 @@ func vfoMonitor(scn *vfoScn, res *vfoResult) []vfoViol {
 	return out
 }
 
+// vfoErrorReply: did a node answer an ERROR REPLY (not a redirect) to a data command? (see the client
+// harness, vfcErrorReply: outside the fault alphabet of the never-skip statements; injected connection
+// faults cb / ac are cuts, not error replies)
+func vfoErrorReply(trace []string) bool {
+	fault := ""
+	for _, ev := range trace {
+		p := strings.Split(ev, ":")
+		switch {
+		case p[0] == "F" && len(p) == 2:
+			fault = p[1]
+		case p[0] == "q" && len(p) == 5 && p[4] == "e":
+			if fault != "cb" && fault != "ac" {
+				return true
+			}
+			fault = ""
+		}
+	}
+	return false
+}
+
+// vfoMonitor: the monitors of one run (vfoMonitor1) on the first run; for a scenario with a restart
+// also the second run and the whole history; per-key never-skip over the whole history.
+func vfoMonitor(scn *vfoScn, res *vfoResult) []vfoViol {
+	keysOf := func(c vfoCmd) []int {
+		if c.Key2 > 0 {
+			return []int{c.Key, c.Key2 - 1}
+		}
+		return []int{c.Key}
+	}
+	var out []vfoViol
+	if res.ZExec < 0 {
+		out = vfoMonitor1(scn, res)
+	} else {
+		r1 := *res
+		r1.Execs, r1.Final, r1.Err, r1.Arrivals, r1.ZExec = res.Execs[:res.ZExec], res.Final1, res.Err1, res.Arrivals1, -1
+		for i, ev := range res.Trace {
+			if ev == "Z" {
+				r1.Trace = res.Trace[:i]
+				break
+			}
+		}
+		out = vfoMonitor1(scn, &r1)
+		// second run: at the holder, nothing twice in transactional mode
+		cnt := map[int]int{}
+		for _, e := range res.Execs[res.ZExec:] {
+			if e.ID < 0 {
+				continue
+			}
+			for i := range e.Keys {
+				if e.Holder[i] != e.Node {
+					out = append(out, vfoViol{"exec-not-at-holder", fmt.Sprintf("after the restart: cmd %d executed at node %d, key lives at node %d", e.ID, e.Node, e.Holder[i]), ""})
+				}
+			}
+			cnt[e.ID]++
+			if cnt[e.ID] > 1 && scn.Txn {
+				out = append(out, vfoViol{"txn-double-exec", fmt.Sprintf("after the restart: cmd %d executed %d times within one run", e.ID, cnt[e.ID]), ""})
+			}
+		}
+		// the whole history: a restart resumes at the stored position - nothing may be lost behind it
+		if res.Final == "eof" && !res.Stalled {
+			ever := map[int]bool{}
+			for _, e := range res.Execs {
+				ever[e.ID] = true
+			}
+			for _, c := range scn.Cmds {
+				if !ever[c.ID] {
+					out = append(out, vfoViol{"lost-command", fmt.Sprintf("the run after the restart ended without a target error but cmd %d was never executed (first run ended with %s)", c.ID, res.Final1), ""})
+					break
+				}
+			}
+		}
+		if res.Stalled {
+			out = append(out, vfoViol{"sender-stalled", fmt.Sprintf("the run after the restart neither finished the stream nor returned (err=%v)", res.Err), ""})
+		}
+	}
+	// the FINAL value (Props.C19.exec_effective_prefix on the double's own log): below the position stored on the
+	// target the last execution of a key is its last command below that position - a restart resumes at the
+	// stored position and never repairs what lies below it. Blocking modes (the stored position of pipelined
+	// modes is C19-F2).
+	if !scn.pipelined() && !vfoErrorReply(res.Trace) {
+		lastStored := int64(-1)
+		for _, e := range res.Execs {
+			if len(e.Keys) == 1 && e.Keys[0] == "vfcp" && strings.HasSuffix(e.Field, "_offset") {
+				fmt.Sscan(e.Value, &lastStored)
+			}
+		}
+		top := map[int]int{} // key -> its last command below the stored position
+		for _, c := range scn.Cmds {
+			if res.Ends[c.ID] <= lastStored {
+				for _, k := range keysOf(c) {
+					top[k] = c.ID
+				}
+			}
+		}
+		lastExec := map[int]int{} // key -> the command executed last
+		for _, e := range res.Execs {
+			if e.ID < 0 {
+				continue
+			}
+			for _, c := range scn.Cmds {
+				if c.ID == e.ID {
+					for _, k := range keysOf(c) {
+						lastExec[k] = e.ID
+					}
+				}
+			}
+		}
+		for k, m := range top {
+			if le, ok := lastExec[k]; ok && le < m {
+				out = append(out, vfoViol{"stale-value-below-stored-position", fmt.Sprintf("key %s: the last command that took effect is cmd %d, after cmd %d had taken effect; the stored offset %d covers cmd %d, so no restart sends it again",
+					scn.Keys[k], le, m, lastStored, m), ""})
+				break
+			}
+		}
+	}
+	// never skips (Props.C19.exec_never_skip / exec_downward_closed, on the double's own log, every run of
+	// the scenario): when a command of a key takes effect every earlier command of that key has taken
+	// effect before. Blocking modes (pipelined: C19-F1), no error replies.
+	if !scn.pipelined() && !vfoErrorReply(res.Trace) {
+		perKey := map[int][]int{}
+		kOf := map[int][]int{}
+		for _, c := range scn.Cmds {
+			kOf[c.ID] = keysOf(c)
+			for _, k := range keysOf(c) {
+				perKey[k] = append(perKey[k], c.ID)
+			}
+		}
+		done := map[int]bool{}
+	skip:
+		for _, e := range res.Execs {
+			if e.ID < 0 {
+				continue
+			}
+			for _, k := range kOf[e.ID] {
+				for _, id := range perKey[k] {
+					if id >= e.ID {
+						break
+					}
+					if !done[id] {
+						out = append(out, vfoViol{"per-key-skip", fmt.Sprintf("key %s: cmd %d took effect although the earlier cmd %d of that key had not", scn.Keys[k], e.ID, id), ""})
+						break skip
+					}
+				}
+			}
+			done[e.ID] = true
+		}
+	}
+	return out
+}
+
+// ---------------------------------------------------------------- operational model (Model/ClusterExec.lean)
+
+// vfoExecOp translates the observed history of a BLOCKING scenario (real sendCmdsBatch, real cluster
+// client; batch boundaries from vfoObsClient, node answers from the double) into the events of the
+// operational model: B / x r c / A / F / ps px pr pc / d / R (see lean/GunYu/Drive/C19.lean). `split`
+// is 1: the model is the current sender, whose position write goes in a batch of its own after the
+// data batch was acknowledged; a position riding with data, or applied before the acknowledgement, is
+// not a step of it. The segment events / log / stored position printed by the driver are computed
+// here from the same observations.
+func vfoExecOp(tag string, scn *vfoScn, res *vfoResult) (string, []string, string) {
+	split := 1
+	if scn.pipelined() {
+		// a pipelined run is several attempts in flight; only the single-flush scenarios (one Dispatch that
+		// carries data and position) are one attempt: replayed with split = 0, the sender whose position
+		// rides with the data
+		if !scn.CpBatch {
+			return "", nil, "mode"
+		}
+		split = 0
+	}
+	if vfoErrorReply(res.Trace) {
+		return "", nil, "error-reply"
+	}
+	n := len(scn.Cmds)
+	pos := map[string]int{}
+	grp := make([]string, n)
+	for i, c := range scn.Cmds {
+		if c.Key2 > 0 && !scn.CrossPut {
+			return "", nil, "multi-key"
+		}
+		pos[fmt.Sprint(c.ID)] = i
+		grp[i] = fmt.Sprint(c.Key)
+	}
+	posOfOffset := func(v string) (int, bool) {
+		var off int64
+		if _, err := fmt.Sscan(v, &off); err != nil {
+			return 0, false
+		}
+		if off == 0 {
+			return 0, true
+		}
+		for i, c := range scn.Cmds {
+			if res.Ends[c.ID] == off {
+				return i + 1, true
+			}
+		}
+		return 0, false
+	}
+	var cpExecs []vfdoubles.ClusterExec
+	for _, e := range res.Execs {
+		if e.ID < 0 {
+			cpExecs = append(cpExecs, e)
+		}
+	}
+	// the node queue of a command in an attempt: the node its first request of that attempt reached
+	type att struct {
+		p, q                                    int
+		dataN, posN                             string
+		route                                   map[int]int
+		answered, redirected, done              map[int]bool
+		app                                     []string
+		acked, gone, posSent, posRedir, posAppl bool
+		posAcked                                bool
+	}
+	// pre-pass: routes
+	var routes []map[int]int
+	{
+		var cur map[int]int
+		seen := map[int]bool{}
+		for _, ev := range res.Trace {
+			p := strings.Split(ev, ":")
+			switch {
+			case p[0] == "B" && len(p) == 5 && p[2] != ".":
+				cur, seen = map[int]int{}, map[int]bool{}
+				routes = append(routes, cur)
+			case p[0] == "q" && len(p) == 5 && p[2] != "-1" && cur != nil:
+				i, ok := pos[p[2]]
+				if ok && !seen[i] {
+					seen[i] = true
+					var nd int
+					fmt.Sscan(p[1], &nd)
+					cur[i] = nd
+				}
+			}
+		}
+	}
+	var evs, log []string
+	var segs []vfdoubles.ExecSeg
+	quiet := true
+	atoiL := func(x []string) []int {
+		out := make([]int, len(x))
+		for i, v := range x {
+			fmt.Sscan(v, &out[i])
+		}
+		return out
+	}
+	var a *att
+	cur, stored, ai, ck := 0, 0, 0, 0
+	ignored := map[string]bool{}
+	join := func(x []string) string {
+		if len(x) == 0 {
+			return "."
+		}
+		return strings.Join(x, ",")
+	}
+	b2i := func(b bool) int {
+		if b {
+			return 1
+		}
+		return 0
+	}
+	allDone := func() bool {
+		for i := a.p; i < a.q; i++ {
+			if !a.done[i] {
+				return false
+			}
+		}
+		return true
+	}
+	success := func() bool { return a.acked && !a.gone && (!a.posSent || (a.posAppl && a.posAcked)) }
+	closeDone := func() {
+		evs = append(evs, "d")
+		segs = append(segs, vfdoubles.ExecSeg{Kind: 'o', P: a.p, Q: a.q, Store: a.posAppl, App: atoiL(a.app)})
+		cur = a.q
+		if a.posAppl {
+			stored = a.q
+		}
+		a = nil
+	}
+	closeCut := func(restart bool) {
+		if restart && a.posAppl && allDone() {
+			segs = append(segs, vfdoubles.ExecSeg{Kind: 'o', P: a.p, Q: a.q, Store: true, App: atoiL(a.app)})
+			cur = a.q
+		} else {
+			segs = append(segs, vfdoubles.ExecSeg{Kind: 'c', P: a.p, Q: a.q, Store: a.posAppl, App: atoiL(a.app)})
+		}
+		if a.posAppl {
+			stored = a.q
+		}
+		a = nil
+	}
+	restart := func() {
+		if a != nil {
+			if success() {
+				closeDone()
+			} else {
+				closeCut(true)
+			}
+		}
+		evs, segs = append(evs, "R"), append(segs, vfdoubles.ExecSeg{Kind: 's'})
+		cur = stored
+	}
+	open := func(p, q int, dataN string, ride bool, rt map[int]int) {
+		a = &att{p: p, q: q, dataN: dataN, route: rt, answered: map[int]bool{}, redirected: map[int]bool{}, done: map[int]bool{}}
+		rs := make([]string, 0, q-p)
+		for i := p; i < q; i++ {
+			nd, ok := rt[i]
+			if !ok {
+				// never reached a node in this attempt: the queue of another command of its key, else one of its own
+				nd = 100 + scn.Cmds[i].Key
+				for j := p; j < q; j++ {
+					if v, ok2 := rt[j]; ok2 && scn.Cmds[j].Key == scn.Cmds[i].Key {
+						nd = v
+					}
+				}
+			}
+			rs = append(rs, fmt.Sprint(nd))
+		}
+		evs = append(evs, fmt.Sprintf("B:%d:%d:%d:%s", p, q, b2i(ride), join(rs)))
+	}
+	for _, ev := range res.Trace {
+		p := strings.Split(ev, ":")
+		switch p[0] {
+		case "Z":
+			restart()
+		case "B":
+			if len(p) != 5 {
+				return "", nil, "parse"
+			}
+			ids, off := p[2], p[3]
+			switch {
+			case ids != ".":
+				if a != nil {
+					if success() {
+						closeDone()
+					} else if a.gone {
+						closeCut(false) // sendFunc's retry
+					} else {
+						return "", nil, "overlapping-batches"
+					}
+				}
+				l := strings.Split(ids, ",")
+				p0, ok := pos[l[0]]
+				if !ok {
+					return "", nil, "unknown-id"
+				}
+				for j, id := range l {
+					if pos[id] != p0+j {
+						return "", nil, "not-contiguous"
+					}
+				}
+				var rt map[int]int
+				if ai < len(routes) {
+					rt = routes[ai]
+				}
+				ai++
+				open(p0, p0+len(l), p[1], off != "-", rt)
+				if off != "-" {
+					a.posN, a.posSent = p[1], true
+				}
+			case off != "-":
+				// a position batch right after an acknowledged data batch belongs to that attempt (sendFuncOnce's
+				// second batch, or a later flush of the still unchanged position); after a complete attempt it
+				// is a flush of its own
+				if a != nil && a.posSent && success() {
+					closeDone()
+				}
+				if a == nil {
+					// position-only flush: the queue is empty
+					open(cur, cur, "", false, nil)
+					evs, a.acked = append(evs, "A"), true
+				}
+				evs = append(evs, "ps")
+				a.posN, a.posSent = p[1], true
+			default:
+				ignored[p[1]] = true
+			}
+		case "E":
+			if len(p) != 3 || ignored[p[1]] {
+				continue
+			}
+			if a == nil {
+				return "", nil, "stray-result"
+			}
+			fail := "F:ot"
+			if p[2] == "rd" {
+				fail = "F:rd"
+			} else if p[2] == "cs" {
+				fail = "F:cs"
+			}
+			switch {
+			case p[1] == a.dataN && p[1] == a.posN: // data and position in one batch
+				if p[2] == "ok" {
+					evs, a.acked, a.posAcked = append(evs, "A"), true, true
+				} else {
+					evs, a.gone = append(evs, fail), true
+				}
+			case p[1] == a.dataN:
+				if p[2] == "ok" {
+					evs, a.acked = append(evs, "A"), true
+				} else {
+					evs, a.gone = append(evs, fail), true
+				}
+			case p[1] == a.posN:
+				if p[2] == "ok" {
+					a.posAcked = true
+				} else {
+					evs, a.gone = append(evs, fail), true
+				}
+			default:
+				return "", nil, "stray-result"
+			}
+		case "q":
+			if len(p) != 5 {
+				continue
+			}
+			if p[2] == "-1" {
+				switch p[4][0] {
+				case 'x':
+					if ck >= len(cpExecs) {
+						return "", nil, "cp-count"
+					}
+					ce := cpExecs[ck]
+					ck++
+					if !strings.HasSuffix(ce.Field, "_offset") {
+						continue
+					}
+					if a == nil {
+						return "", nil, "stray-position"
+					}
+					if a.posRedir {
+						evs = append(evs, "pc")
+					} else {
+						evs = append(evs, "px")
+					}
+					a.posAppl = true
+					if q, ok := posOfOffset(ce.Value); !ok || q != a.q {
+						return "", nil, "position-value" // the monitor checkpoint-ahead judges it; not a step of the model
+					}
+				case 'm', 'a':
+					if a != nil && !a.posRedir && !a.posAppl {
+						evs, a.posRedir = append(evs, "pr"), true
+					}
+				}
+				continue
+			}
+			i, ok := pos[p[2]]
+			if !ok {
+				continue
+			}
+			if a == nil || i < a.p || i >= a.q {
+				return "", nil, "stray-answer"
+			}
+			switch {
+			case !a.answered[i]:
+				a.answered[i] = true
+				switch p[4][0] {
+				case 'x':
+					for j := a.p; j < i; j++ {
+						if grp[j] == grp[i] && a.redirected[j] && !a.done[j] {
+							quiet = false
+						}
+					}
+					evs, a.done[i] = append(evs, fmt.Sprintf("x:%d", i)), true
+					a.app, log = append(a.app, fmt.Sprint(i)), append(log, fmt.Sprint(i))
+				case 'm', 'a':
+					evs, a.redirected[i] = append(evs, fmt.Sprintf("r:%d", i)), true
+				}
+			case a.redirected[i] && !a.done[i]:
+				if p[4] == "x" {
+					evs, a.done[i] = append(evs, fmt.Sprintf("c:%d", i)), true
+					a.app, log = append(a.app, fmt.Sprint(i)), append(log, fmt.Sprint(i))
+				}
+			default:
+				return "", nil, "re-arrival"
+			}
+		}
+	}
+	restart()
+	segLine, autoLine := vfdoubles.ExecExpect(grp, segs)
+	op := fmt.Sprintf("c19x %s %d %d %s %s", tag, split, n, strings.Join(grp, ","), strings.Join(evs, " "))
+	return op, []string{tag + " accept", fmt.Sprintf("%s quiet %v", tag, quiet), tag + " segs " + segLine,
+		tag + " " + autoLine, tag + " log " + join(log), fmt.Sprintf("%s stored %d", tag, stored)}, ""
+}
+
 // same-node tags for transactional scenarios: the sender puts a whole batch
 // on one node or fails with CROSSSLOT
 func vfoTagsOnNode(node int, n int, salt string) []string {
@@ -536,6 +1231,9 @@ func vfoGen(r *vfutil.Rand, name string, force string) *vfoScn {
 		// transactional, blocking, resumable: the batch carries the position; the cluster client drops
 		// MULTI/EXEC, so data and position are one plain pipeline on the checkpoint key's node
 		scn.Txn, scn.Resume = true, true
+	case "txn-pipe-resume":
+		// transactional, PIPELINED, resumable: the position rides in the one-node pipeline behind the data
+		scn.Txn, scn.Pipeline, scn.Resume = true, true, true
 	case "txn-block":
 		scn.Txn = true
 	case "txn-pipe":
@@ -554,6 +1252,33 @@ func vfoGen(r *vfutil.Rand, name string, force string) *vfoScn {
 		scn.CpBatch, scn.Resume, scn.Fault, scn.Pipeline = true, true, "er", true
 	case "nofollow-pipe":
 		scn.NoFollow, scn.Pipeline = true, true
+	case "chase-ac":
+		// plain, blocking, redirects followed: the slot of every command has moved (stale client map); the new
+		// node applies the FOLLOWED request of the first command and closes the connection before replying
+	case "cp-chase-ac":
+		// plain, blocking, resumable: the checkpoint key's slot has moved; the followed position write is applied
+		// by the new node, its reply is lost; whatever the sender sends next is cut after one command; then a
+		// second run from the stored position
+		scn.Resume, scn.Restart, scn.CpMoved, scn.SelfEnd = true, true, true, true
+	case "restart-txn-block":
+		// transactional, blocking, resumable; a slot moves during the run (redirects are not followed in this
+		// mode): the run reports a restart; the second run starts from the position stored on the target
+		scn.Txn, scn.Resume, scn.Restart = true, true, true
+	case "restart-plain-block":
+		// plain, blocking, resumable; a connection is lost in the middle of a batch: the run ends with that
+		// error; second run from the stored position
+		scn.Resume, scn.Restart, scn.Fault = true, true, vfutil.Pick(r, []string{"cb", "ac"})
+	case "plain-block-crossput":
+		// a two-key command over two nodes: Put refuses it with ErrCrossSlots, which the plain sender retries
+		scn.PutErr, scn.CrossPut = true, true
+	case "cpbatch-pipe-cb":
+		// as cpbatch-pipe, the data node's connection is lost (no error reply): the one Dispatch that carries
+		// data and position is replayed through the operational model WITHOUT the split: a cut that stores
+		scn.CpBatch, scn.Resume, scn.Fault, scn.Pipeline = true, true, "cb", true
+	case "txn-pipe-puterr", "plain-pipe-puterr", "txn-block-puterr":
+		// one command of the stream is refused by the cluster router (MSET over two nodes): Exec / Dispatch
+		// return that error, which is not a redirect: the pipelined sender dispatches the queue again
+		scn.Txn, scn.Pipeline, scn.PutErr = force != "plain-pipe-puterr", force != "txn-block-puterr", true
 	case "fault":
 		scn.Txn, scn.Pipeline = r.Bool(), r.Bool()
 		scn.Fault = vfutil.Pick(r, []string{"er", "cb", "ac"})
@@ -572,6 +1297,33 @@ func vfoGen(r *vfutil.Rand, name string, force string) *vfoScn {
 		scn.Resume = true
 	}
 	cpNode := vfdoubles.ClusterSlot("vfcp") * 3 / 16384
+	switch force {
+	case "chase-ac":
+		x := r.Intn(3)
+		dst := (x + 1 + r.Intn(2)) % 3
+		tg := vfoTagsOnNode(x, 1, name)[0]
+		scn.Keys = []string{fmt.Sprintf("k0{%s}", tg)}
+		scn.BC = 1
+		for i := 0; i < 4; i++ {
+			scn.Cmds = append(scn.Cmds, vfoCmd{ID: i + 1, Key: 0})
+		}
+		scn.During = []vfdoubles.Sched{{At: 0, Ev: vfdoubles.MigEv{Kind: "v", Slot: vfdoubles.ClusterSlot(scn.Keys[0]), Dst: dst}}}
+		scn.Extra = []vfdoubles.Sched{{At: 0, Ev: vfdoubles.MigEv{Kind: "F", Key: "ac", Slot: dst + 1}}}
+		return scn
+	case "cp-chase-ac":
+		// data on the node that is neither the checkpoint key's old nor its new node; requests: 0-2 data, 3-4 run id
+		// and offset at the old node (MOVED), 5 followed run id, 6 followed offset (applied, no reply), 7 first
+		// command of whatever is sent next, 8 second one (connection cut before it is applied)
+		cpNew, x := (cpNode+1)%3, (cpNode+2)%3
+		tg := vfoTagsOnNode(x, 1, name)[0]
+		scn.Keys = []string{fmt.Sprintf("k0{%s}", tg)}
+		for i := 0; i < 3; i++ {
+			scn.Cmds = append(scn.Cmds, vfoCmd{ID: i + 1, Key: 0})
+		}
+		scn.Extra = []vfdoubles.Sched{{At: 6, Ev: vfdoubles.MigEv{Kind: "F", Key: "ac", Slot: cpNew + 1}},
+			{At: 8, Ev: vfdoubles.MigEv{Kind: "F", Key: "cb", Slot: x + 1}}}
+		return scn
+	}
 	var tags []string
 	if scn.CloseOutside {
 		scn.StallOn, scn.StallNode = true, r.Intn(3)
@@ -583,6 +1335,10 @@ func vfoGen(r *vfutil.Rand, name string, force string) *vfoScn {
 	} else if scn.CpRetry {
 		tags = vfoTagsOnNode(vfdoubles.ClusterSlot("vfcp")*3/16384, 2, name)
 		scn.BC = 50
+	} else if scn.Txn && scn.Restart {
+		// one tag: when its slot moves all data moves together, so the run after the restart (fresh slot
+		// map) still has one-node batches; the checkpoint key stays where it is (its own batch)
+		tags = vfoTagsOnNode(cpNode, 1, name)
 	} else if scn.Txn && scn.Resume {
 		tags = vfoTagsOnNode(cpNode, r.Range(2, 3), name) // a transactional batch is one node: the checkpoint key's
 	} else if scn.Txn {
@@ -606,6 +1362,13 @@ func vfoGen(r *vfutil.Rand, name string, force string) *vfoScn {
 		n = 24
 		scn.FaultAt = r.Intn(2)
 	}
+	if scn.Restart {
+		n = r.Range(8, 16)
+		scn.BC = r.Range(2, 4)
+		if scn.Fault != "" {
+			scn.FaultAt = r.Range(2, n/2)
+		}
+	}
 	if scn.NoFollow {
 		scn.BC = r.Range(2, 3)
 		n = r.Range(6, 10)
@@ -625,6 +1388,17 @@ func vfoGen(r *vfutil.Rand, name string, force string) *vfoScn {
 	for i := 0; i < n; i++ {
 		t := r.Intn(len(tags))
 		scn.Cmds = append(scn.Cmds, vfoCmd{ID: i + 1, Key: vfutil.Pick(r, tagKeys[t])})
+	}
+	if scn.PutErr {
+		// one key on another node; the command in the middle of the stream is an MSET over both
+		base := vfdoubles.ClusterSlot(scn.Keys[scn.Cmds[len(scn.Cmds)/2].Key]) * 3 / 16384
+		other := vfoTagsOnNode((base+1)%3, 1, name+"y")
+		scn.Keys = append(scn.Keys, fmt.Sprintf("ky{%s}", other[0]))
+		scn.Cmds[len(scn.Cmds)/2].Key2 = len(scn.Keys)
+		if scn.BC < 2 {
+			scn.BC = 2
+		}
+		return scn
 	}
 	if scn.Cross {
 		// one key on another node, used in the middle of the stream
@@ -660,7 +1434,7 @@ func vfoGen(r *vfutil.Rand, name string, force string) *vfoScn {
 		if force != "" {
 			at = r.Intn(n / 2)
 		}
-		if force == "txn-block-resume" {
+		if force == "txn-block-resume" || force == "txn-pipe-resume" {
 			// the slot of the first command has moved before the run starts: its first batch carries a
 			// command answered MOVED (not followed) and, behind it in the same pipeline, the position
 			at = 0
@@ -715,7 +1489,8 @@ func vfoGen(r *vfutil.Rand, name string, force string) *vfoScn {
 	return scn
 }
 
-func vfoOne(t *testing.T, s *vfutil.Session, idx int, scn *vfoScn) {
+func vfoOne(t *testing.T, s *vfutil.Session, idx int, scn *vfoScn) (nops int) {
+	nops = 1
 	tag := fmt.Sprintf("#%d", idx)
 	res, err := vfoRun(scn)
 	if err != nil {
@@ -724,7 +1499,14 @@ func vfoOne(t *testing.T, s *vfutil.Session, idx int, scn *vfoScn) {
 		return
 	}
 	redirects := 0
-	for _, e := range res.Trace {
+	trace1 := res.Trace
+	for i, e := range res.Trace {
+		if e == "Z" {
+			trace1 = res.Trace[:i]
+			break
+		}
+	}
+	for _, e := range trace1 {
 		p := strings.Split(e, ":")
 		if p[0] == "q" && (p[4][0] == 'm' || p[4][0] == 'a') {
 			redirects++
@@ -737,7 +1519,7 @@ func vfoOne(t *testing.T, s *vfutil.Session, idx int, scn *vfoScn) {
 	// the error class of the failing batch, where it surfaces (sendFuncOnce = Exec/Dispatch, or
 	// the pipelined receiver) and whether every attempt fails (cluster state) or only the first (fault)
 	faulted := false
-	for _, e := range res.Trace {
+	for _, e := range trace1 {
 		if strings.HasPrefix(e, "F:") {
 			faulted = true
 		}
@@ -745,6 +1527,10 @@ func vfoOne(t *testing.T, s *vfutil.Session, idx int, scn *vfoScn) {
 	follows := !scn.Txn && !scn.NoFollow
 	cls, path, pers := "none", "send", "always"
 	switch {
+	case scn.PutErr && scn.CrossPut:
+		cls = "crossslot"
+	case scn.PutErr:
+		cls = "other" // the router's error, returned by Exec / Dispatch before anything is sent; every attempt fails
 	case scn.Txn && scn.Cross:
 		cls = "crossslot"
 	case scn.CloseOutside:
@@ -754,28 +1540,32 @@ func vfoOne(t *testing.T, s *vfutil.Session, idx int, scn *vfoScn) {
 		cls, pers = "redirect", "once"
 	case faulted:
 		cls, pers = "other", "once"
-		if scn.Pipeline {
+		if scn.pipelined() {
 			path = "recv"
 		}
 	case !follows && redirects > 0:
 		cls = "redirect"
-		if scn.Pipeline {
+		if scn.pipelined() {
 			path = "recv"
 		}
 	}
 	// re-sends of a batch: a client that follows redirects makes every command arrive once per
 	// send plus once per redirect, so count executions; one that does not, arrivals
 	maxN := 0
+	execs1, arrivals1 := res.Execs, res.Arrivals
+	if res.ZExec >= 0 {
+		execs1, arrivals1 = res.Execs[:res.ZExec], res.Arrivals1 // the first run: the one whose decision is compared
+	}
 	if follows || faulted {
 		cnt := map[int]int{}
-		for _, e := range res.Execs {
+		for _, e := range execs1 {
 			cnt[e.ID]++
 			if e.ID >= 0 && cnt[e.ID] > maxN {
 				maxN = cnt[e.ID]
 			}
 		}
 	} else {
-		for id, n := range res.Arrivals {
+		for id, n := range arrivals1 {
 			if id >= 0 && n > maxN {
 				maxN = n
 			}
@@ -785,13 +1575,99 @@ func vfoOne(t *testing.T, s *vfutil.Session, idx int, scn *vfoScn) {
 	if maxN > 1 {
 		resends = maxN - 1
 	}
-	s.Op(fmt.Sprintf("c19o %s %d %d %s %s %s", tag, vfoB2i(scn.Txn), vfoB2i(scn.Pipeline), cls, path, pers),
-		fmt.Sprintf("%s resends=%d final=%s", tag, resends, res.Final))
+	putErrOp, putErrLine := "", ""
+	if scn.PutErr {
+		// a batch refused by the router never reaches a node: its attempts are read off the client wrapper
+		// (B tokens that carry the refused command), what reached the nodes off the double's arrivals
+		bad := 0
+		for _, c := range scn.Cmds {
+			if c.Key2 > 0 {
+				bad = c.ID
+			}
+		}
+		attempts := 0
+		var batchIDs []string
+		for _, e := range trace1 {
+			p := strings.Split(e, ":")
+			if p[0] != "B" || len(p) != 5 {
+				continue
+			}
+			l := strings.Split(p[2], ",")
+			for _, id := range l {
+				if id == fmt.Sprint(bad) {
+					attempts++
+					batchIDs = l
+				}
+			}
+		}
+		resends = 0
+		if attempts > 1 {
+			resends = attempts - 1
+		}
+		var puts, reached []string
+		keyOfID := map[string]vfoCmd{}
+		for _, c := range scn.Cmds {
+			keyOfID[fmt.Sprint(c.ID)] = c
+		}
+		for _, id := range batchIDs {
+			c := keyOfID[id]
+			if c.Key2 > 0 {
+				puts = append(puts, "r")
+				continue
+			}
+			puts = append(puts, fmt.Sprint(vfdoubles.ClusterSlot(scn.Keys[c.Key])*3/16384))
+			// the commands of the refused batch come after every acknowledged one: any arrival is of this batch
+			for i := 0; i < arrivals1[c.ID]; i++ {
+				reached = append(reached, fmt.Sprint(vfdoubles.ClusterSlot(scn.Keys[c.Key])*3/16384))
+			}
+		}
+		sub := "."
+		if len(reached) > 0 {
+			sub = strings.Join(reached, ",")
+		}
+		putErrOp = fmt.Sprintf("c19s %%s %d %d %d %s %d -,-,-,-,-,-", vfoB2i(scn.Txn), vfoB2i(scn.pipelined()), vfoB2i(scn.Txn), strings.Join(puts, ","), vfoB2i(scn.CrossPut))
+		putErrLine = fmt.Sprintf("%%s attempts=%d submitted=%s final=%s", attempts, sub, res.Final)
+		if scn.Txn && len(reached) > 0 {
+			s.Violate("txn-dispatch-failed-but-submitted", fmt.Sprintf("the batch with cmd %d was refused by the router (every Exec/Dispatch of it failed) but commands of it reached node(s) %s", bad, sub),
+				map[string]interface{}{"scenario": fmt.Sprintf("%+v", *scn), "trace": strings.Join(res.Trace, " ")})
+		}
+	}
+	final1 := res.Final
+	if res.ZExec >= 0 {
+		final1 = res.Final1
+	}
+	s.Op(fmt.Sprintf("c19o %s %d %d %s %s %s", tag, vfoB2i(scn.Txn), vfoB2i(scn.pipelined()), cls, path, pers),
+		fmt.Sprintf("%s resends=%d final=%s", tag, resends, final1))
+	nops = 1
+	if xop, xlines, why := vfoExecOp(fmt.Sprintf("#%d", idx+nops), scn, res); xop != "" {
+		s.Op(xop, xlines...)
+		nops++
+		s.Count("exec_model_traces")
+		for _, w := range [][2]string{{" r:", "refused"}, {" c:", "followed"}, {" F:rd", "fail_redirect"}, {" F:ot", "fail_other"},
+			{" ps", "position_batch"}, {" pr", "position_refused"}, {" pc", "position_followed"}, {" R B:", "restart_resend"}, {" F:cs", "fail_crossslot"}} {
+			if strings.Contains(xop, w[0]) {
+				s.Count("exec_model_" + w[1])
+			}
+		}
+		for _, l := range xlines {
+			if strings.Contains(l, "disc=false") {
+				s.Count("exec_model_disc_false")
+			}
+		}
+	} else {
+		s.Count("exec_model_skipped_" + why)
+	}
+	if putErrOp != "" {
+		t2 := fmt.Sprintf("#%d", idx+nops)
+		s.Op(fmt.Sprintf(putErrOp, t2), fmt.Sprintf(putErrLine, t2))
+		nops++
+		s.Count("puterr_traces")
+	}
 	mode := "plain"
 	if scn.Txn {
 		mode = "txn"
 	}
-	if scn.Pipeline {
+	if scn.pipelined() {
 		mode += "_pipe"
 	} else {
 		mode += "_block"
@@ -820,6 +1696,7 @@ func vfoOne(t *testing.T, s *vfutil.Session, idx int, scn *vfoScn) {
 			"trace": strings.Join(res.Trace, " "),
 		})
 	}
+	return nops
 }
 
 func vfoB2i(b bool) int {
@@ -836,23 +1713,21 @@ func TestVerifC19Out(t *testing.T) {
 	idx := 0
 	// every mode with a redirect / cross-slot batch at least a few times
 	forced := []string{"txn-block-resume", "txn-block", "txn-block", "txn-block", "txn-pipe", "txn-pipe", "txn-cross", "txn-cross",
-		"nofollow-block", "nofollow-pipe", "cpbatch-block", "cpbatch-block-1", "cpbatch-block-2", "cpbatch-pipe", "close-outside", "fault", "fault", "fault", "fault", "fault", "fault"}
+		"nofollow-block", "nofollow-pipe", "cpbatch-block", "cpbatch-block-1", "cpbatch-block-2", "cpbatch-pipe", "close-outside", "fault", "fault", "fault", "fault", "fault", "fault",
+		"txn-pipe-resume", "chase-ac", "cp-chase-ac", "plain-block-crossput", "cpbatch-pipe-cb", "restart-txn-block", "restart-txn-block", "restart-plain-block", "restart-plain-block", "txn-pipe-puterr", "plain-pipe-puterr", "txn-block-puterr"}
 	if only := os.Getenv("VERIF_C19_ONLY"); only != "" {
 		forced = []string{only}
 	}
 	for _, f := range forced {
-		vfoOne(t, s, idx, vfoGen(r.Fork(), fmt.Sprintf("f%d", idx), f))
-		idx++
+		idx += vfoOne(t, s, idx, vfoGen(r.Fork(), fmt.Sprintf("f%d", idx), f))
 	}
 	{
 		// repaired defect (94a8b6c): the checkpoint run-id fields were lost when the first checkpoint
 		// flush of a run was re-sent after a failed redirect (monitor checkpoint-offset-without-runid)
-		vfoOne(t, s, idx, vfoGen(r.Fork(), fmt.Sprintf("f%d", idx), "cp-retry"))
-		idx++
+		idx += vfoOne(t, s, idx, vfoGen(r.Fork(), fmt.Sprintf("f%d", idx), "cp-retry"))
 	}
 	n := vfutil.Scale(60, 4000)
 	for i := 0; i < n; i++ {
-		vfoOne(t, s, idx, vfoGen(r.Fork(), fmt.Sprintf("g%d", i), ""))
-		idx++
+		idx += vfoOne(t, s, idx, vfoGen(r.Fork(), fmt.Sprintf("g%d", i), ""))
 	}
 }
